@@ -154,7 +154,7 @@ pub fn vint_encode(v: u64, force9: bool) -> Vec<u8> {
 
 /// Applies one generated mutation; returns a short description (operator name first).
 pub fn mutate(s: &mut Src, bytes: &mut Vec<u8>, fields: &[Field], other: Option<&(Vec<u8>, Vec<Field>)>, elem_bytes: usize) -> String {
-    let op = s.weighted(&[6, 6, 4, 3, 22, 4, 3, 3, 3, 3, 2, 3]);
+    let op = s.weighted(&[6, 6, 4, 3, 22, 4, 3, 3, 3, 3, 2, 3, 6, 4]);
     match op {
         0 => {
             let i = s.below(bytes.len() as u64) as usize;
@@ -294,6 +294,62 @@ pub fn mutate(s: &mut Src, bytes: &mut Vec<u8>, fields: &[Field], other: Option<
                 _ => s.u8(),
             };
             format!("fri_num_partitions := {}", bytes[f.off])
+        },
+        12 => {
+            // a header field replaced by another VALID value of its own domain: the proof stays
+            // decodable but no longer matches its contents (fewer / more FRI layers than implied,
+            // other domain sizes, other extension, other query count ...)
+            let labels = [
+                "options.queries", "options.blowup", "options.grinding", "options.extension", "options.folding",
+                "options.remainder_degree", "options.batching_constraints", "options.batching_deep", "options.partitions",
+                "options.hash_rate", "trace_info.log_length", "trace_info.main_width", "trace_info.aux_width",
+                "trace_info.aux_rands", "num_unique_queries",
+            ];
+            let label = *s.pick(&labels);
+            let f = fields.iter().find(|f| f.label == label).unwrap();
+            let cur = bytes[f.off];
+            let v: u8 = match label {
+                "options.queries" | "num_unique_queries" => s.range(1, 255) as u8,
+                "options.blowup" => 1 << s.range(1, 7),
+                "options.grinding" => s.range(0, 32) as u8,
+                "options.extension" => s.range(1, 3) as u8,
+                "options.folding" => 1 << s.range(1, 4),
+                "options.remainder_degree" => ((1u16 << s.range(0, 8)) - 1) as u8,
+                "options.batching_constraints" | "options.batching_deep" => s.range(0, 2) as u8,
+                "options.partitions" => s.range(1, 16) as u8,
+                "options.hash_rate" => s.range(1, 255) as u8,
+                "trace_info.log_length" => match s.below(3) {
+                    0 => cur.wrapping_add(1),
+                    1 => cur.wrapping_sub(1),
+                    _ => s.range(3, 40) as u8,
+                },
+                _ => s.range(0, 255) as u8,
+            };
+            bytes[f.off] = if v == cur { cur ^ 1 } else { v };
+            format!("valid_header_value {label} := {}", bytes[f.off])
+        },
+        13 => {
+            // remove or duplicate one whole FRI layer and fix the layer count
+            let starts: Vec<usize> = fields.iter().filter(|f| f.label == "fri.layer_values_len").map(|f| f.off).collect();
+            let nl = fields.iter().find(|f| f.label == "fri.num_layers").unwrap().off;
+            let end = fields.iter().find(|f| f.label == "fri.remainder_len").unwrap().off;
+            if starts.is_empty() {
+                bytes[nl] = 1 + s.below(3) as u8;
+                return format!("fri_layer_count := {} without layers", bytes[nl]);
+            }
+            let k = s.below(starts.len() as u64) as usize;
+            let a = starts[k];
+            let b = if k + 1 < starts.len() { starts[k + 1] } else { end };
+            if s.bool() {
+                bytes.drain(a..b);
+                bytes[nl] -= 1;
+                format!("fri_layer_removed #{k} of {}", starts.len())
+            } else {
+                let copy = bytes[a..b].to_vec();
+                bytes.splice(b..b, copy);
+                bytes[nl] += 1;
+                format!("fri_layer_duplicated #{k} of {}", starts.len())
+            }
         },
         _ => {
             // cross-proof splice: copy one field of another honest proof of the same AIR
